@@ -47,6 +47,15 @@ def check(ctx):
         # it is a mean of the sensitive block
         ok = contains(A.C.canon(e.data["value"]), lambda s: s.op == "fn" and s.args[0] == "mean" and s.args[1] is A.C.canon(S))
         ctx.ob("R15.1", r.func, e.node, ok, "the statistic is the mean of the sensitive block", construct="sensitive_mean_ is a mean of S")
+        means = [s for s in subterms(A.C.canon(e.data["value"])) if s.op == "fn" and s.args[0] == "mean" and s.args[1] is A.C.canon(S)]
+        def _float_dtype(v):
+            return (v.op == "global" and v.args[0] in ("builtins.float", "numpy.float64", "numpy.float32", "numpy.floating")) or \
+                   (v.op == "const" and const_value(v) in ("float", "float64", "float32", "f8"))
+        extra = sorted({k for m_ in means for k, v_ in (m_.args[-1] if isinstance(m_.args[-1], tuple) else ())
+                        if k not in ("axis", "keepdims") and not (k == "dtype" and _float_dtype(v_))})
+        ctx.ob("R15.1", r.func, e.node, not extra, "the mean is taken in floating point over all rows (no dtype / where / out argument)"
+               if not extra else f"the mean is taken with {extra}: an integer dtype truncates the column means (and `where` drops rows), so "
+               "the centred columns no longer have zero mean", construct="sensitive_mean_ plain mean")
     # R15.2 fit
     bt = stores_attr(r, "beta_")
     ctx.floor("R15.2", "stores of beta_", len(bt), 1)
